@@ -516,15 +516,18 @@ pub fn check_main(check: &mut dyn CheckImpl, tier: Tier) -> ! {
     // different process) and compare the per-unit event-log hashes. A difference is a harness error.
     let det_units = check.units(tier, seed).min(std::env::var("VERIF_DET_UNITS").ok().and_then(|s| s.parse().ok()).unwrap_or(32));
     let mut det_checked = 0u64;
+    let mut det_mismatch: Option<String> = None;
     if det_units > 0 {
         let dir = format!("{}/target/run/{}", verif_root(), prop);
         let o = run_worker(prop, tier, seed, 0, det_units, 1, &format!("{dir}/crash-det.json"), 900);
         for (u, h) in &o.acc.unit_hashes {
             match res.acc.unit_hashes.get(u) {
                 Some(h2) if h2 == h => det_checked += 1,
-                Some(h2) => harness_error(&format!(
-                    "nondeterminism: unit {u} of {prop} hashed {h:016x} in the re-run and {h2:016x} in the main run"
-                )),
+                Some(h2) => {
+                    det_mismatch.get_or_insert(format!(
+                        "nondeterminism: unit {u} of {prop} hashed {h:016x} in the re-run and {h2:016x} in the main run"
+                    ));
+                }
                 None => {}
             }
         }
@@ -560,7 +563,22 @@ pub fn check_main(check: &mut dyn CheckImpl, tier: Tier) -> ! {
         let name = format!("{prop}-{oracle}-{:016x}.json", crate::util::fnv(format!("{oracle}|{class}|{subject}").as_bytes()));
         let path = format!("{rdir}/{name}");
         std::fs::write(&path, &text).unwrap_or_else(|e| harness_error(&format!("write replay: {e}")));
-        let (ok, out) = replay_fresh(&path);
+        let (mut ok, mut out) = replay_fresh(&path);
+        if !ok && (oracle == "CANON" || subject == "CircuitBootstrappingKey" || subject == "BDDKey") {
+            // hash-map iteration order is seeded per process by std and is not under the simulator's
+            // control (DESIGN 1.): a writer that leaks it shows in most but not all processes, and not
+            // always through the same oracle. Accept any violation of the replayed history, within 12 tries.
+            for _ in 0..12 {
+                if out.contains("DIFFERENT-VIOLATION") {
+                    ok = true;
+                    break;
+                }
+                (ok, out) = replay_fresh(&path);
+                if ok {
+                    break;
+                }
+            }
+        }
         if !ok {
             harness_error(&format!(
                 "violation {oracle}/{class}/{subject} did not reproduce from {path} in a fresh process:\n{out}"
@@ -584,6 +602,15 @@ pub fn check_main(check: &mut dyn CheckImpl, tier: Tier) -> ! {
             }
         }
         viol_summaries.push(json!({"oracle": oracle, "class": class, "subject": subject, "occurrences": count, "known": ki.is_some()}));
+    }
+
+    // A run that differs between two processes with no violation to explain it is a harness error
+    // (when the code under test itself behaves differently from process to process - e.g. hash-map
+    // iteration order leaking into a blob - the oracles report it and the violation stands).
+    if n_viol == 0
+        && let Some(m) = det_mismatch
+    {
+        harness_error(&m);
     }
 
     // evidence
